@@ -49,7 +49,15 @@ def do_solve(game, prune, obj=None):
         if obj is not None:
             sg.prune_states = prune
         r = sg.solve()
-        return {"ok": enc(list(r)), "pruned": enc(_snap.get("pruned"))}
+        res = {"ok": enc(list(r)), "pruned": enc(_snap.get("pruned"))}
+        # the caller is free to edit what it was handed back: a later solve must not see those edits
+        for part in r:
+            if isinstance(part, list):
+                for x in part:
+                    if isinstance(x, list):
+                        x.append("edited by the caller")
+                del part[:]
+        return res
     except Exception as e:   # noqa: BLE001
         return exc_info(e)
 
@@ -91,6 +99,18 @@ def op_solve(c):
     return res
 
 
+def op_solve_late(c):
+    """the caller builds the StochasticGame, THEN adds a final state to the final_states list it still owns, then solves:
+    the solve is about the description as it stands when solve() is called"""
+    game = dec(c["game"])
+    try:
+        sg = tad.StochasticGame(prune_states=c["prune"], **game)
+    except Exception as e:   # noqa: BLE001
+        return exc_info(e)
+    game["final_states"].append(c["extra"])
+    return do_solve(game, c["prune"], sg)
+
+
 def op_reach(c):
     """the reachability half of solve(), through the public API in the order solve() uses"""
     game = dec(c["game"])
@@ -98,7 +118,8 @@ def op_reach(c):
         sg = tad.StochasticGame(prune_states=c["prune"], **game)
         sg.check_game()
         sl = sg.init_states()
-        solver = tad.Solver(threshold=10**(-6), state_list=sl)
+        thr = float.fromhex(c["threshold"]) if c.get("threshold") else 10**(-6)
+        solver = tad.Solver(threshold=thr, state_list=sl)
         strats, it = solver.solve_reachability(sg.transition_list, sg.final_states, sg.prune_states)
         return {"ok": enc([[s.reach_probability for s in sl], strats, it])}
     except Exception as e:   # noqa: BLE001
@@ -220,9 +241,17 @@ def op_board(c):
     a = dec(c["args"])
     try:
         b1 = rg.gen_rnd_board(*a)
+        first = enc(list(b1))
+        # the caller edits the board it was given (in place), uses random for something else, and asks for the same
+        # seed and parameters again: it must get the original board, not its own edits
+        for part in b1:
+            for row in part:
+                for j in range(len(row)):
+                    row[j] = 99
+                row.append(7)
         random.random(); random.seed(12345); random.random()
         b2 = rg.gen_rnd_board(*a)
-        return {"ok": enc(list(b1)), "again": enc(list(b2))}
+        return {"ok": first, "again": enc(list(b2))}
     except Exception as e:   # noqa: BLE001
         return exc_info(e)
 
@@ -240,6 +269,10 @@ def op_write_robots(c):
             # what is checked is the SECOND file, and that it equals the first
             before = copy.deepcopy(a)
             rg.write_robots(os.path.join(d, "first.py"), *a)
+            # the target already exists and is LONGER than what is about to be written (an earlier, bigger board under
+            # the same name): it must be replaced, not overwritten from the start
+            with open(fn, "w") as f:
+                f.write(open(os.path.join(d, "first.py")).read() + "# stale tail of an earlier file\n" * 400)
             rg.write_robots(fn, *a)
             text = open(fn).read()
             games = cr.read_dict_from_file(fn)
@@ -249,7 +282,7 @@ def op_write_robots(c):
             return exc_info(e)
 
 
-OPS = {"solve": op_solve, "reach": op_reach, "solve_seq": op_solve_seq, "rdfs": op_rdfs, "rtable": op_rtable,
+OPS = {"solve": op_solve, "solve_late": op_solve_late, "reach": op_reach, "solve_seq": op_solve_seq, "rdfs": op_rdfs, "rtable": op_rtable,
        "run_games": op_run_games, "report": op_report, "call": op_call, "board": op_board,
        "write_robots": op_write_robots}
 
